@@ -71,6 +71,53 @@ CHECKS = {
              "and validated by BusTrace.tla.",
         note="Bounded universes (2-3 channels, <=6 keys, payload lengths 0,1,2,3,8,9); abstract keys/channels mapped by monotone tables; BLAKE3 collision-freeness; a conflicting repeat keeps the first arrival (emission set = set of first arrivals). No hook needed.",
         design="9.2 C18"),
+    "C20": dict(
+        technique="TLC model checking of Cas.tla/MC_C20.tla (memory and disk blob tiers, 7 file faults, retention index) and CasExport.tla/MC_C20x.tla (export profiles) + spec->impl replay of every bounded behaviour into the real MemoryTier/DiskTier/RetainedBlobIndex and of every (record set, profile, tamper) into the real wsc_*_wal_export / validate_wsc_*_wal_export + fault sweep of every stored file",
+        text="TLC checks on the full state space of both tiers that get(h) is None, a typed error or the bytes hashing to h, that a mismatching verified put is refused with the store unchanged, that writes are idempotent, pin/unpin and reads never change content, the disk tier persists across reopen, coordinates are never rebound or aliased and corrupt files are detected on read. Every behaviour of 3-5 calls (put, put_verified, get, has, pin, unpin, reopen, retain, load, "
+             "flip/truncate/swap/delete/stray-temp/junk/dir faults) over 2-3 blobs, plus random 12-call behaviours, is replayed into the real tiers: every result and the full observable state after every call is compared with the model, and the property is decided independently on the real results (returned bytes re-hashed, refused writes leave every observable unchanged). Populated disk tiers have every file bit-flipped, truncated, overwritten, "
+             "deleted and shadowed by stray temp files. Generated WAL record sets are exported through the self-contained, CAS-addressed and reference-only profiles and re-imported with each referenced blob withheld or corrupted: same records or a typed error, never different content.",
+        note="Bounded scope (2-3 blobs, 1-2 coordinates, 3-5 calls exhaustive, 12 calls sampled; single-segment WALs with 1-3 submissions and 0-2 retained readings); content id modelled as identity; faults applied between calls. Finding F7 (MemoryTier::put_verified) fixed in fc16d86.",
+        design="9.4 C20"),
+    "C15": dict(
+        technique="TLC model checking of Strands.tla/MC_C15.tla (fork at every parent tick, every interleaving of parent and strand ticks over disjoint / read-overlapping / write-overlapping / obstructing footprints, both plural policies, a failure at every settlement step, sibling and chained strands with a support pin, re-settlement) + spec->impl replay of every behaviour into the real WorldlineRuntime / ProvenanceService / Engine",
+        text="Strands.tla transcribes fork_strand, one super_tick head commit, pin_support, live_basis_report, plan_with_policy_internal (sticky blocking, clean-overlap revalidation, plural policy) and settle_with_policy_internal (checkpoint, one entry per decision, shell last, restore) over worldlines = slot->value map + entries carrying in/out slots, diff ops and the state after. TLC checks ForkIsExactPrefix, NoSharedHeads, lane isolation in both directions, PlanIsPure, SettleAllOrNothing, "
+             "ImportedSlotsTakeStrandValues, ParentChangedSlotsNeverOverwritten, BlockingIsSticky and ParentStaysReplayable on every state and exports every complete behaviour with the predicted outcome of each call. The harness replays each one through fork_strand, ingest + super_tick with a table-driven rule declaring exactly the model footprint, pin_support and SettlementService::{compare, plan_with_policy, settle_with_policy}, and decides the property on the real outcome after every step "
+             "(receipt = source entry, copied prefix entry by entry, fresh heads only, lane isolation, plan purity by fingerprints, exact restoration after a failure injected before every decision and at the shell step, no parent-written slot changed, imported slots = strand values, every lane replayable, each import compared with re-running its tick on the parent basis).",
+        note="Bounded (<=2+2 ticks after the fork, 3 attachment slots + 1 node slot, <=2 strands, <=2 settlements); honest footprints assumed (C14); failures injected via verif_set_global_tick overflow and a pre-bound plural id; findings F8/F9 listed in known_findings.json; MC_C15_asbuilt.cfg keeps the model counterexample for them.",
+        design="9.4 C15"),
+    "C10": dict(
+        technique="TLC model checking of Wal.tla/MC_C10.tla (host calls in code order, store faults at every position, Crash keeping any byte prefix >= synced x any ledger version on disk, Recover, <=2 crash-recover-continue cycles) + trace validation (WalTrace.tla) of physical crash probes on a real TrustedRuntimeHost with a filesystem WAL (segment cut at byte b x coexisting ledger version, opened by a fresh host) + FilesystemWalFaultPlan injection before every host call + two fixed real-process scenarios predicted by the as-built model",
+        text="The model transcribes submit/tick (mutate memory, append frames unsynced, append commit marker + sync, persist the writer-epoch ledger by atomic replace, then acknowledge/publish), the fault repair path and reopening; TLC proves on every state that acknowledged/published subsets are recoverable from the durable bytes, reopening never fails, the transcribed scan equals the declarative committed prefix, no partial transaction is visible, recovery is idempotent, retries are duplicates. Seeded workloads run on a real host; for sampled (quick) or every (thorough) byte length of the segment and every ledger version that can coexist, "
+             "a fresh host is opened on the materialised directory, recover_read_only runs twice, the view (every IntentOutcome with receipt digests, state roots, ticks, provenance length, certificate roots) must equal the uninterrupted host's view at that commit, callbacks must not run, read-only entry points must not touch files, retries must be Duplicate and the continued run must end like the uninterrupted one; WalTrace.tla judges every probe and fault event with Wal.tla's operators.",
+        note="Physical leg models process kill (written = surviving); power loss only on the spec. Ledger versions captured between host calls. Findings F11 (lsn gap after an epoch without commit) and F12 (crash during tail-truncation rewrite) are listed in known_findings.json.",
+        design="9.4 C10"),
+    "C11": dict(
+        technique="TLC enumeration of MC_C11.tla over Wal.tla (one corruption edit of a committed log: region damage, truncation, delete/duplicate/swap/transplant of a record, delete/transplant of a transaction, second log with equal LSNs; as-built transcription of the recovery scan; Repaired variant as invariant) + spec->impl replay of every case on real segment bytes + trace validation (WalTraceC11.tla) of systematic mutation through recover_wal_segment_bytes, recover_filesystem_store, doctor_filesystem_store, validate_filesystem_manifest and enable_runtime_wal",
+        text="Every model edit is exported with the class (err / prefix / nonprefix) the transcribed recovery predicts and applied to the real bytes of logs written by a real host (log B = same calls, other payloads, equal LSNs); prediction vs real class is reported as drift (zero on the tree). Independently every record- and transaction-level edit of a generated submit/stage/tick log, bit flips and zeroed ranges (every bit and aligned 8-byte range of a <=4 kB log in thorough), truncations, ledger and manifest edits run through all entry points; recovered histories are compared as identity+content digests "
+             "and the trace spec requires every successful result to be a prefix of the committed history.",
+        note="Abstract hashes in the model; the Repaired model anchors the chain at genesis. Finding F13 (chain digests never compared, commit markers not de-duplicated: 20 edit x entry-point keys) is listed in known_findings.json.",
+        design="9.4 C11"),
+    "C05": dict(
+        technique="TLC model checking of Provenance.tla/MC_C05.tla (chain mode: every interleaving of two-head appends on two worldlines and a fork; tamper mode: every (position, field, variant) alteration, swap/duplicate/truncate/drop/transplant and tampered checkpoint with the predicted re-verification outcome) + spec->impl replay of every tamper case on entries appended by the real runtime, through append validation, replay_worldline_state_at, PlaybackCursor::seek_to, checkpoint insert/restore, validate_btr and import_suffix + trace validation of appended entries (ProvenanceTrace.tla)",
+        text="The model gives every entry the fields of ProvenanceEntry/HashTriplet/patch header/receipt with hashes as injective constructors and transcribes validate_shared_entry/validate_local_commit_entry, the replay checks, checkpoint validation and fork. Chain mode proves, over every interleaving of coordinator appends of two heads on two worldlines and a fork, append-only and gap-free histories, parents = previous tip, commit id = H(parents, root, patch digest, policy), that every prefix re-verifies and the hash relation equal inputs <=> equal commit id. "
+             "Tamper mode enumerates every (position, field, variant) of a catalogue covering every entry field (including field+digests recomputed consistently), swap, duplication, truncation, cross-worldline transplant and tampered checkpoints; it predicts err | same | diff. Each case is applied to real entries (all fields are pub) produced by the real runtime; the property is decided on the REAL outcome through every entry point - typed error or exactly the original graph, roots, tick history, receipts and last materialization - and again on random multi-head "
+             "multi-worldline histories at every position; BTR records and suffix bundles get their own field-by-field alterations. Every entry the runtime appended is validated by a trace spec reusing the spec's AppendEntry/Fork.",
+        note="Bounded model (3 worldlines x 3 entries). A transplant with every id rewritten consistently is accepted only as the donor worldline's own verified history (checked). Findings F14 (entry.outputs), F15 (dropped tick_receipt), F16 (diagnostic plan/rewrites digests) are listed in known_findings.json.",
+        design="9.4 C05"),
+    "C07": dict(
+        technique="TLC model checking of Provenance.tla/MC_C07.tla (every checkpoint subset x unforked/forked-at-every-tick worldline x every cursor action sequence; invariant materialized = StateAt(tick)) + spec->impl replay of every behaviour into the real PlaybackCursor/ProvenanceService over histories produced by the real runtime, against the live record and a checkpoint-free U0 replay + trace validation of cursor decisions on long random histories (ProvenanceCursorTrace.tla)",
+        text="SeekTo transcribes PlaybackCursor::seek_to exactly (pin and history bounds, no-op, restore when target < tick or the nearest checkpoint at or below the target lies strictly above the cursor - then nearest checkpoint or U0 - else advance), Step transcribes every PlaybackMode for both roles, AddCheckpoint transcribes validate_checkpoint_for_history, Fork copies the prefix and the checkpoints <= t+1. TLC proves that after every action the materialized value (state, tick history, last materialization) equals the fold of the worldline's entries from U0, "
+             "for every checkpoint subset, fork tick and action sequence, and exports each behaviour with the predicted tick, mode, result and path. The harness produces the histories with the real WorldlineRuntime/super_tick (two heads), records the live frontier at every tick, places real checkpoints as the scenario says, and after every cursor action compares graph content, root, state root, the whole tick history (commit ids, receipts, patches) and last materialization with the live record and with a checkpoint-free U0 replay; the path taken is observed "
+             "through a recording ProvenanceStore. Long seeded histories (50-200 ticks) get random seek/step/mode/checkpoint/fork sessions with the same oracles, validated by a trace spec.",
+        note="Bounded model (N <= 5, alphabet per cfg). committed_ingress and last_materialization_errors are not compared (replay resets them by contract). A path decision that differs from the model while the state is right is reported as drift.",
+        design="9.4 C07"),
+    "C16": dict(
+        technique="TLC model checking of Observe.tla/MC_C16.tla (whole request alphabet evaluated in every reachable state and across every transition) + trace validation of real multi-worldline runs with interleaved reads (ObserveTrace.tla) + direct decision in the harness (state fingerprints around every read, replay at the coordinate, re-asked historical requests) + model-derived relations on real artifact hashes / optic read identities",
+        text="Observe.tla transcribes ObservationService::observe / observe_optic as a FUNCTION of the observable runtime (per-worldline recorded history, global tick, strand forks, checkpoints). MC_C16 evaluates every request of a finite alphabet (all frame x projection pairs incl. invalid ones, plan/instance/rights/budget variations, query observer, frontier, every explicit tick incl. future ticks, unknown worldline; optic foci, coordinates incl. provenance refs, apertures and budgets) in every reachable state and proves: a read leaves the runtime unchanged; a settled reading at an explicit tick is "
+             "invariant under every later commit / pass / fork / checkpoint (only observed_after moves); unavailable history is a typed error; a mismatching provenance ref is never answered. The harness drives seeded histories on the real WorldlineRuntime / ProvenanceService / Engine with reads interleaved, logs request, reading or typed error and BLAKE3 fingerprints of runtime, provenance and Engine::verif_fingerprint() around every read; ObserveTrace.tla accepts the trace only if fingerprints are equal, every field equals the model's derivation from the logged history, re-asked historical requests "
+             "return the identical coordinate-bound reading, and artifact hash / read identity are injective functions of the abstract artifact. The harness independently compares each historical reading with replay_worldline_state_at and PlaybackCursor.",
+        note="Bounded model (1 base worldline + 1 fork child, history <= 2). Traces are seeded samples (quick ~3.4k reads, thorough ~31k reads). Only receipt_correlation_full_scan_count is masked in fingerprints. Recorded outputs are imported because engine rules do not emit. Finding F6 (optic provenance ref commit not checked) fixed in d7948ba.",
+        design="9.4 C16"),
 }
 
 NOT_APPLICABLE = {
